@@ -14,9 +14,7 @@ def parseItem (s : String) : Option Item :=
   | [id, req, ok] => do pure ⟨← id.toNat?, ← parseBool req, ← parseBool ok⟩
   | _ => none
 
-def parseFrom (s : String) : Option HFrom :=
-  if s == "0" then some .absent else if s == "1" then some .same
-  else if s == "2" || s == "3" then some .differ else none
+def parseFrom (s : String) : Option HFrom := do hfromOfCode (← s.toNat?)
 
 /-- `A<from>` (no `to`) or `A<from>.<loc>.<dom>.<res>` -/
 def parseHdrA (s : String) : Option StartTLS.Unit :=
